@@ -113,7 +113,7 @@ pub fn run(ctx: &Ctx) -> Report {
         "all executions with at most d scheduling deviations (C06's sets plus termination-specific scenarios: empty tree, FIFOs/sockets only, failing worker, failing dispatcher), and every single injected system-call failure of C04's site list with and without one deviation; oracle: the supervisor owns all blocking (futex emulation), so 'no runnable thread' is deadlock, the step budget catches spinning, a blocking open/read of a FIFO is decided structurally; non-trivial = distinct system-call trace",
     );
     let j: Judge = &judge;
-    for (name, jobs) in sets::schedule_jobs(ctx.quick(), &|s| s) {
+    for (name, jobs) in sets::schedule_jobs_level(if ctx.quick() { 0 } else { 1 }, &|s| s) {
         if ctx.quick() && name.starts_with("tiny") {
             continue; // the d<=2 search on the tiny scenario is C06's and C18's in the quick tier (time budget)
         }
